@@ -51,7 +51,7 @@ impl RoleMap { pub fn get(&self, _n: &str) -> Option<Arc<Role>> { unimplemented!
     U.struct(UNIX, 'AuthProvider', derive=[])
     U.add(SPEC)
     U.impl('impl AuthProvider', [
-        U.fn(UNIX, 'AuthProvider', 'new', requires=[('km', 'obeys_key_model::<String>()')],
+        U.fn(UNIX, 'AuthProvider', 'new', requires=[('km', 'obeys_key_model::<String>()')], hash_loops=(0,),
              ensures=[
                  ('exactly_the_configured_system_users_are_mapped', '''r is Ok ==> forall |u: String| #[trigger] r->Ok_0.unix_users@.contains_key(u) <==> config.unix_users@.contains_key(u)'''),
                  ('each_under_the_role_the_configuration_names', '''r is Ok ==> forall |u: String| #[trigger] r->Ok_0.unix_users@.contains_key(u) ==>
